@@ -145,6 +145,12 @@ class Dmn(Family):
                             regs.append(r)
                 if not bad or rng.chance(1, 2):
                     regs.sort()
+                if not bad and rng.chance(1, 3):
+                    # regions adjacent in the frontend's address space but not in guest-physical space
+                    for i in range(1, len(regs)):
+                        ua = regs[i - 1][2] + regs[i - 1][1]
+                        if ua + regs[i][1] < 2**64 and all(ua + regs[i][1] <= x[2] or x[2] + x[1] <= ua for j, x in enumerate(regs) if j != i):
+                            regs[i][2] = ua
                 elif rng.chance(1, 2):
                     regs.append(list(regs[0]))
                 steps.append(st("set_mem_table", [], b"", regs))
